@@ -41,7 +41,7 @@ def alloc_requests(line):
 
 def run(ctx):
     from translate import alglists
-    ctx.lean_stage(["C18"], translators=[alglists.run])
+    ctx.lean_stage(["C18"])
     bdir = ctx.repo_stage()
     if bdir and getattr(ctx, "alg", None):
         rng = random.Random(ctx.seed)
